@@ -47,6 +47,8 @@ type evDef struct {
 	kind     kind
 	slot     phase0.Slot     // kStart: duty slot; kPartial: slot in the message
 	height   specqbft.Height // kCons
+	root     [32]byte        // kCons: the root the message's signers signed
+	msgType  specqbft.MessageType
 	wire     *runh.Wire
 	otherVal bool // envelope addressed to another validator
 	otherRol bool // envelope (or whole message) addressed to another role
@@ -84,7 +86,7 @@ func buildRole(role spectypes.BeaconRole) *roleCfg {
 	h0, h1, h2, h3 := specqbft.Height(s0), specqbft.Height(s1), specqbft.Height(s2), specqbft.Height(s3)
 	add := func(e evDef) { c.events = append(c.events, e) }
 	cons := func(name string, envelope spectypes.MessageID, m *specqbft.SignedMessage) evDef {
-		return evDef{name: name, kind: kCons, height: m.Message.Height, wire: runh.WireQBFT(envelope, m)}
+		return evDef{name: name, kind: kCons, height: m.Message.Height, root: m.Message.Root, msgType: m.Message.MsgType, wire: runh.WireQBFT(envelope, m)}
 	}
 
 	add(evDef{name: "startDuty(s1)", kind: kStart, slot: s1})
@@ -103,6 +105,11 @@ func buildRole(role spectypes.BeaconRole) *roleCfg {
 	add(cons("decided(h1,{2,3,4})", id, decidedValid))
 	add(cons("decided(h1,{1,2,3,4})", id, runh.QBFTMsg(id[:], specqbft.CommitMsgType, h1, 1, val(s1, runh.Valid), true, 1, 2, 3, 4)))
 	add(cons("decidedOtherValidValue(h1)", id, runh.QBFTMsg(id[:], specqbft.CommitMsgType, h1, 1, val(s1, runh.Alt), true, 2, 3, 4)))
+	// a genuine quorum commit over H(valid value) relayed with its (unsigned) full data swapped for
+	// another valid value
+	swapped := runh.QBFTMsg(id[:], specqbft.CommitMsgType, h1, 1, val(s1, runh.Valid), true, 2, 3, 4)
+	swapped.FullData = val(s1, runh.Alt)
+	add(cons("decidedRootOfValidDataOfOtherValue(h1)", id, swapped))
 	add(cons("decidedInvalidValue(h1)", id, runh.QBFTMsg(id[:], specqbft.CommitMsgType, h1, 1, val(s1, runh.Invalid), true, 2, 3, 4)))
 
 	// stale height s0, future height s2
@@ -362,6 +369,14 @@ func (s *sys) Apply(st runh.Step) (string, []runh.Viol, int) {
 				continue
 			}
 			dv := post.RunningInstance.State.DecidedValue
+			// (i') what the instance calls decided hashes to the root the commit quorum signed (the full
+			// data travels unsigned next to it)
+			if e.msgType == specqbft.CommitMsgType {
+				if hr, herr := specqbft.HashDataRoot(dv); herr != nil || hr != e.root {
+					bad("duty signature over a value that does not hash to the root the commit quorum signed", fmt.Sprintf("%s caused %s: the decided value kept by the instance hashes to %s, the commits are over %s", e.name, c, hx(hr), hx(e.root)), c.String(), "no signature")
+					continue
+				}
+			}
 			// (ii) the decided value passes the role's value check (independent instance)
 			if verr := s.c.valCheck(dv); verr != nil {
 				bad("duty signature over a decided value that fails the value check", fmt.Sprintf("%s caused %s although the decided value is invalid: %v", e.name, c, verr), c.String(), "no signature")
